@@ -6,6 +6,7 @@ package harness
 
 import (
 	"fmt"
+	"pgregory.net/rapid"
 	"strings"
 	"time"
 )
@@ -171,6 +172,48 @@ func c11Units(tier string, seed int64) []Unit {
 			for _, kind := range []Beh{BFatalA, BErrorf, BFailNowC, BPanicStr, BCleanupErrorf, BCleanupFatal, BErrorfThenFatalA, BFail} {
 				k++
 				c06RunAs(c, c06Scen{name: "TestC11Replay", chunks: []string{"plain line"}, size: size, kind: kind}, uint64(seed)*17+uint64(k), "C11")
+			}
+		}
+	}})
+	// draw bookkeeping: the default label of an unlabelled draw ("#<number of the draw within the test case>")
+	// is what the verbose log of the search and the final replay have in common; every test case counts from 0
+	units = append(units, Unit{Name: "C11/default-draw-labels-count-from-0-in-every-case", Run: func(c *Ctx) {
+		for _, n := range []int{1, 3, 6} {
+			for _, base := range []Beh{BPass, BSkip} {
+				prog := &LazyProgram{Name: "unlabelled-draws", Base: func(string, string) Beh { return base }, Body: func(t *rapid.T, e *Env) {
+					x := rapid.Uint64().Draw(t, "")
+					y := rapid.Bool().Draw(t, "")
+					e.cur.Draws = fmt.Sprint(x, y)
+					e.Do(t, "body", e.cur.Draws)
+				}}
+				env := NewEnv(nil, prog.Base)
+				log := RunCheck(prog, env, Config{Checks: n, Seed: uint64(seed)*3 + 11, ShrinkMS: 3, NoFailFile: true, Verbose: true, Name: "TestC11labels"})
+				c.R.Evals++
+				c.R.States++
+				c.R.Transitions += int64(len(env.Invs))
+				// split the log at the "test #k start" lines and look at the labels in between
+				caseNo, want := 0, 0
+				var seen []string
+				for _, ev := range log.TB.Events {
+					if ev.Kind != "log" {
+						continue
+					}
+					switch {
+					case strings.HasPrefix(ev.Text, "[rapid] test #") && strings.Contains(ev.Text, " start"):
+						caseNo++
+						want = 0
+					case strings.HasPrefix(ev.Text, "[rapid] draw #"):
+						lab := ev.Text[len("[rapid] draw "):strings.Index(ev.Text, ":")]
+						seen = append(seen, fmt.Sprintf("case%d:%s", caseNo, lab))
+						if caseNo > 0 && lab != fmt.Sprintf("#%d", want) {
+							c.Violate(Violation{Sig: "C11 draw-numbering-carries-over", Detail: fmt.Sprintf("-rapid.v, -rapid.checks=%d: draw %d of test case %d is logged as %q (labels so far: %v)", n, want, caseNo, lab, seen),
+								Replay: map[string]any{"engine": "check", "checks": n, "base": base.String()}})
+							return
+						}
+						want++
+					}
+				}
+				c.Outcome(fmt.Sprintf("n=%d base=%s cases=%d labels=%d", n, base, caseNo, len(seen)), caseNo > 1)
 			}
 		}
 	}})
